@@ -100,12 +100,13 @@ fn setup_line(e: &TypeEntry, owner: &[u8; 32], writable: bool, data: &[u8]) -> S
 
 /// Prefix patterns for data of length `len` under a `w`-byte discriminant. `full`: every single-byte
 /// deviation (255 values per position for w ≤ 2, 8 values otherwise); else first/last byte only.
-fn patterns(disc: &[u8], len: usize, full: bool) -> Vec<(String, Vec<u8>)> {
+fn patterns(kind: Kind, disc: &[u8], len: usize, full: bool) -> Vec<(String, Vec<u8>)> {
     let w = disc.len();
+    // the bytes behind the prefix: a valid body of the type when the length allows it
     let body = |v: &mut Vec<u8>| {
         let mut k = 0xA0u8;
         while v.len() < len {
-            v.push(k);
+            v.push(if kind == Kind::Var && v.len() > w { 0 } else { k });
             k = k.wrapping_add(1);
         }
         v.truncate(len);
@@ -206,33 +207,54 @@ pub fn run(args: &Args) {
     let ntypes = d.it.table.len();
     let mut id = 0u64;
     let sys = [0u8; 32];
+    for c in crate::corpus_cases("C08") {
+        id += 1;
+        d.case(&format!("case {id} corpus {}", c[0].trim_start_matches("case").trim()));
+        for l in &c[1..] {
+            d.op(l);
+        }
+        d.rec.mark_nontrivial();
+        d.rec.bump("grid:corpus");
+    }
     for ti in 0..ntypes {
         let (kind, pid, disc) = {
             let e = &d.it.table[ti];
             (e.kind, e.prog_id, e.disc.clone())
         };
         let w = disc.len();
-        let body_ok = if kind == Kind::Zc { 2 } else { 3 };
+        let body_ok = match kind {
+            Kind::Zc => 2,
+            Kind::Fix => 3,
+            Kind::Var => 9,
+        };
         d.rec.bump(&format!("type:{}:w{w}", kind.name()));
         // (a) owner sweep on the exact data: id, every single-bit flip, System
-        let exact: Vec<u8> = patterns(&disc, w + body_ok, false)[0].1.clone();
+        let exact: Vec<u8> = patterns(kind, &disc, w + body_ok, false)[0].1.clone();
         let mut owners: Vec<(String, [u8; 32])> = vec![("id".into(), pid), ("system".into(), sys)];
         owners.extend((0..256).map(|b| (format!("flip{b}"), flip(&pid, b))));
+        let mut wrong = exact.clone();
+        if w > 0 {
+            wrong[w - 1] ^= 0x80;
+        }
+        let variants: Vec<(&str, Vec<u8>)> = vec![("exact", exact.clone()), ("exact-nobody", exact[..w].to_vec()), ("lastdev", wrong), ("short", exact[..w.saturating_sub(1)].to_vec())];
         for (oi, (oname, owner)) in owners.iter().enumerate() {
-            let writable = oi % 2 == 0;
-            id += 1;
-            d.case(&format!("case {id} owner-sweep {} w{w} {oname}", kind.name()));
-            let l = setup_line(&d.it.table[ti], owner, writable, &exact);
-            d.op(&l);
-            observe_ops(&mut d, kind, false, oi < 4);
-            d.rec.bump("grid:owner_sweep");
+            for (vname, data) in &variants {
+                for writable in [true, false] {
+                    id += 1;
+                    d.case(&format!("case {id} owner-sweep {} w{w} {oname} {vname} wr{}", kind.name(), writable as u8));
+                    let l = setup_line(&d.it.table[ti], owner, writable, data);
+                    d.op(&l);
+                    observe_ops(&mut d, kind, false, oi < 4);
+                    d.rec.bump("grid:owner_sweep");
+                }
+            }
         }
         // (b) data sweep: every length, every prefix pattern, writable t/f, owner = id; a reduced set for foreign owners
         let mut lens: Vec<usize> = (0..=w + 3).collect();
-        lens.push(w + 8);
+        lens.push(w + 9);
         for &len in &lens {
-            let full = len == w || len == w + body_ok;
-            for (pname, data) in patterns(&disc, len, full) {
+            let full = true;
+            for (pname, data) in patterns(kind, &disc, len, full) {
                 let key = pname.starts_with("dev");
                 for writable in [true, false] {
                     let owner_set: Vec<(&str, [u8; 32])> = if !key || pname.ends_with("x01") || pname.ends_with("x80") {
@@ -272,7 +294,8 @@ pub fn run(args: &Args) {
             _ => pid,
         };
         let len = rng.below(w as u64 + 6) as usize;
-        let mut data = patterns(&disc, len, false)[0].1.clone();
+        let len = if rng.chance(1, 3) { w + 9 } else { len };
+        let mut data = patterns(kind, &disc, len, false)[0].1.clone();
         if rng.chance(1, 3) && len > 0 {
             let p = rng.below(len as u64) as usize;
             data[p] ^= 1 << rng.below(8);
